@@ -534,16 +534,25 @@ def step (d : D) (line : String) : IO D := do
   | "lk" :: act :: ps :: "->" :: status :: rest =>
     let p := ps.toNat?.getD 0
     let a : Option Pogreb.Lock.Action := match act with
-      | "start" => some (.start p) | "sys" => some (.sys p) | "release" => some (.release p) | _ => none
+      | "start" => some (.start p) | "sys" => some (.sys p) | "release" => some (.release p) | "crash" => some (.crash p) | _ => none
     match a with
     | none => fail d "MODEL" s!"lk: unknown action {act}"
     | some a =>
+      let lockPrev := d.lockSys
       let sys := Pogreb.Lock.step true d.lockSys a
       let want := match sys.pc p with
-        | .idle => "idle" | .statDone _ => "parked:lock.stat" | .opened _ _ => "parked:lock.open"
+        | .idle => "idle" | .exclFailed => "parked:lock.stat" | .again => "parked:lock.retry" | .opened _ _ => "parked:lock.open"
         | .locked _ _ => "parked:lock.flock" | .holding e _ => if e then "holding:1" else "holding:0"
         | .failed => "failed" | .unlinked _ => "parked:unlock.remove"
       let mut d := { d with lockSys := sys, lockSteps := d.lockSteps + 1 }
+      match lockPrev.pc p, sys.pc p with
+      | .locked _ _, .holding e _ =>
+        -- `dirty` before the step: the last session did not complete Close
+        if lockPrev.dirty && !e then
+          d ← fail d "SPEC" s!"lock: process {p} acquired the lock after a session that did not complete Close, but reports acquiredExisting=false (no recovery)"
+        else if !lockPrev.dirty && e then
+          d ← fail d "SPEC" s!"lock: process {p} reports acquiredExisting=true on a directory whose last session completed Close (spurious recovery: it opened a lock file another opener had just created)"
+      | _, _ => pure ()
       match field rest "holders" with
       | some "-" => pure ()
       | some hs =>
@@ -768,6 +777,8 @@ def step (d : D) (line : String) : IO D := do
       d ← fail d "SPEC" s!"compact returned {res}"
     let _ := n
     pure d
+  | "staleclose" :: res :: _ =>
+    if res == "ok" || res == "panic" then fail d "SPEC" s!"a second Close of a closed handle returned {res}" else pure d
   | "afterclose" :: rest =>
     -- operations on a closed handle (C10): no success for writers, no panic, no trace in the directory
     let put := (field rest "put").getD ""
